@@ -108,10 +108,15 @@ class RedisMessageBroker(MessageBrokerT):
             keys=["parameters", "_reject_to"],
         )
 
-        if raw_params[0] is not None:
-            params = self.PARAMETERS_CLASS.decode(raw_params[0].decode())
-        else:  # pragma: no cover
-            params = self.PARAMETERS_CLASS()
+        if raw_params[0] is None:
+            # the message doesn't exist anymore (e.g. it was acked just before): there is nothing
+            # to return - pushing its name would leave a message without data in the queue
+            async with self.conn.pipeline(transaction=True) as pipe:
+                self.__unmark_processing(key, pipe)
+                await pipe.execute()
+            return
+
+        params = self.PARAMETERS_CLASS.decode(raw_params[0].decode())
 
         reject_to = "n"  # normal queue
         if raw_params[1] is not None:
